@@ -8,13 +8,13 @@
 (* Layer I (ToStringImpl driven by ParserImpl's callback events) against   *)
 (* Layer A (Render / ToStringA).  One behaviour per (document, capacity).  *)
 (***************************************************************************)
-EXTENDS Integers, Sequences, FiniteSets, TLC
+EXTENDS Integers, Sequences, FiniteSets, TLC, FmtTable
 CONSTANTS MaxNodes, MaxNest, Vals, DocNames, Roots, AllCaps, WithInvalid, EmitOn
 
 F  == INSTANCE BinsonFormat
-R  == INSTANCE Render
+R  == INSTANCE Render WITH FmtF <- FmtF
 PI == INSTANCE ParserImpl
-TS == INSTANCE ToStringImpl WITH DecText <- R!Dec64
+TS == INSTANCE ToStringImpl WITH DecText <- R!Dec64, FmtF <- FmtF
 
 VARIABLES buf, bstk, nodes, fin, bad
 vars == <<buf, bstk, nodes, fin, bad>>
@@ -46,7 +46,7 @@ CapStr(cap) == IF cap < 0 THEN "N" ELSE ToString(cap)
 
 \* a double outside the %f table (only mutated documents can contain one): text unknown
 RECURSIVE Known(_)
-Known(vt) == IF vt.t = "double" THEN vt.v \in R!FmtKnown
+Known(vt) == IF vt.t = "double" THEN vt.v \in FmtKnown
              ELSE \A i \in 1..Len(vt.kids) : Known(vt.kids[i].vt)
 
 \* one (document, capacity) behaviour
